@@ -109,7 +109,8 @@ def _stat_checks(r, cop, out, sig, case, fam, th, band_margin, band_tau, band_jo
     if not abs(t - tm) <= band_tau:
         r.violation(f'{sig}:{mode}:tau', f'{fam} theta={th}: Kendall tau of the sample {t:.4f} vs model tau {tm:.4f} '
                     f'(band {band_tau})', case=case)
-    pts = np.array([(a, b) for a in A.G11[2:-2] for b in A.G11[2:-2]])
+    gj = [0.0] + A.G11[2:-2] + [1.0]            # boundary rows included: C(u,0)=0, C(u,1)=u must hold inside a mixed batch too
+    pts = np.array([(a, b) for a in gj for b in gj])
     ej = _ecdf_joint(out, pts)
     cj = np.asarray(cop.cumulative_distribution(pts.copy()), float)
     dj = float(np.max(np.abs(ej - cj)))
